@@ -655,6 +655,67 @@ fn check_build(case: &Case, w: usize, r: &RunResult) -> Result<(), (String, Stri
             .map(|ev| format!("get_{}", crate::inventory::plain_ident(ev.name.as_str())))
             .collect();
 
+        // The parser's idea of what the module declares agrees with a count on the token
+        // level: a declaration the parser loses would otherwise be missing from the
+        // expectation and from the output alike.
+        {
+            let (rel, _, _) = &parsed.modules[*mi];
+            let source = world
+                .module_files()
+                .into_iter()
+                .find(|(p, _)| p == rel)
+                .map(|(_, b)| b.lossy())
+                .unwrap_or_default();
+            if let Some(census) = crate::inventory::census(&source) {
+                let mut declared_types: Vec<String> = vec![];
+                let mut declared_enums: Vec<String> = vec![];
+                for d in &m.definitions {
+                    let n = crate::inventory::plain_ident(d.name.as_str());
+                    match &d.inner {
+                        pyxis::grammar::ItemDefinitionInner::Type(_) => declared_types.push(n),
+                        pyxis::grammar::ItemDefinitionInner::Enum(_) => declared_enums.push(n),
+                    }
+                }
+                let mut declared_values: Vec<String> = m
+                    .extern_values
+                    .iter()
+                    .map(|ev| crate::inventory::plain_ident(ev.name.as_str()))
+                    .collect();
+                let mut declared_extern: Vec<String> = m
+                    .extern_types
+                    .iter()
+                    .map(|(n, _)| crate::inventory::plain_ident(n.as_str()))
+                    .collect();
+                let mut c = census.clone();
+                for v in [
+                    &mut declared_types,
+                    &mut declared_enums,
+                    &mut declared_values,
+                    &mut declared_extern,
+                    &mut c.types,
+                    &mut c.enums,
+                    &mut c.extern_values,
+                    &mut c.extern_types,
+                ] {
+                    v.sort();
+                }
+                if c.types != declared_types
+                    || c.enums != declared_enums
+                    || c.extern_values != declared_values
+                    || c.extern_types != declared_extern
+                {
+                    return Err((
+                        "declaration-lost-before-resolution".into(),
+                        format!(
+                            "{out}: the text declares types {:?} enums {:?} extern types {:?} extern values {:?}, the parsed module has types {:?} enums {:?} extern types {:?} extern values {:?}",
+                            c.types, c.enums, c.extern_types, c.extern_values,
+                            declared_types, declared_enums, declared_extern, declared_values
+                        ),
+                    ));
+                }
+                let _ = census;
+            }
+        }
         // What the rust prologues/epilogues contribute: read from the module's text by the
         // harness's own token-level reader, so that an entry the parser loses is still expected.
         let mut pro_items: Vec<String> = vec![];
